@@ -666,7 +666,9 @@ USE_SCRIPTS = {
                "  sleep 0.05; i=$((i+50))\ndone\necho $max > \"$d/peak.$n\"\nrm -f \"$d/run.$n\"\n",
     "tmo.sh": "#!/bin/sh\n# tmo.sh DIR RANK SECONDS: is a command of that length cut short\n: > \"$1/start.$2\"\nsleep $3\n: > \"$1/end.$2\"\n",
 }
-TMO_SHORT, TMO_LONG, TMO_SLEEP = 1, 9, "2.5"
+# the watchdog looks at the targets every WDOG_POLL = 2 s: a limit of 1 s is enforced after about 2 s, one of 9 s not before
+# 10 s; a command of 4.5 s leaves more than 2 s to either side
+TMO_SHORT, TMO_LONG, TMO_SLEEP = 1, 9, "4.5"
 
 
 def own_users(c):
@@ -1206,7 +1208,8 @@ def run(ctx):
         ucases, ugroups = gen_use_cases(real, rng, quick)
         if rp_case is not None:
             ucases, ugroups = ([rp_case] if rp_kind == "use" else []), []
-        with concurrent.futures.ThreadPoolExecutor(max_workers=8) as ex:
+        # (the commands of this group mostly sleep: a wider pool keeps the group at about the length of its longest case)
+        with concurrent.futures.ThreadPoolExecutor(max_workers=24) as ex:
             ures = list(ex.map(lambda ic: run_use_case(real, ctx, ic[1], ic[0]), enumerate(ucases)))
         umod = ctx.model("opt", "".join(model_line(real, c, c.argv()) + "\n" for c in ucases), args=["model", bits])
         for i, (c, m) in enumerate(zip(ucases, umod)):
